@@ -5,6 +5,15 @@ INVS = ["S2NAsSoonAs", "S2SAsSoonAs", "S2NOnlyIf", "S2SOnlyIf", "AtMostOnce", "C
 BLOCKS = [((5, "A"), (4, "P")), ((5, "B"), (4, "P"))]
 
 
+def low_scenarios(kinds):
+    """Parent in slot 1, child in slot 2: the parent's FIRST certificate also finalizes slot 1 and moves
+    the pruning watermark onto it (a fast-finalization certificate alone, or final + notar in either order)."""
+    blocks = [((2, "A"), (1, "P")), ((2, "B"), (1, "P"))]
+    votes = P.scn_votes([2], ["A", "B"], kinds)
+    return [P.scn(votes=votes, certs=[("ff", 1, "P")], blocks=blocks),
+            P.scn(votes=votes, certs=[("final", 1, "-"), ("notar", 1, "P")], blocks=blocks)]
+
+
 def scenarios(kinds, parent_kinds, parent_votes=False, sibling=()):
     out = []
     for pk in parent_kinds:
@@ -32,6 +41,7 @@ def run(ctx):
                     witnesses=["W_S2N", "W_S2S"])
         P.run_model(ctx, "s2n_221_own2", [2, 2, 1], 2, 7,
                     scenarios(["notar", "skip"], ["nf"], parent_votes=True), INVS, P.rel_c06)
+        P.run_model(ctx, "s2n_low_221_own0", [2, 2, 1], 0, 7, low_scenarios(["notar", "skip"]), INVS, P.rel_c06)
     else:
         for stakes, own, kinds in (([2, 2, 1], 0, ["notar", "nf", "skip", "sf", "final"]),
                                    ([2, 2, 1], 2, ["notar", "nf", "skip", "sf"]),
@@ -40,6 +50,8 @@ def run(ctx):
             P.run_model(ctx, f"s2n_{''.join(map(str, stakes))}_own{own}", stakes, own, 7,
                         scenarios(kinds, ["notar", "nf", "ff"], parent_votes=True, sibling=["notar", "nf", "ff"]),
                         INVS, P.rel_c06, sample=1200000, timeout=3500, witnesses=["W_S2N", "W_S2S"])
+        P.run_model(ctx, "s2n_low_221_own0", [2, 2, 1], 0, 7, low_scenarios(["notar", "skip", "sf"]), INVS,
+                    P.rel_c06, sample=1200000, timeout=3500)
         P.run_model(ctx, "s2n_11111_own0", [1, 1, 1, 1, 1], 0, 7,
                     scenarios(["notar", "skip"], ["notar"]), INVS, P.rel_c06, sample=800000, timeout=3500)
     return ctx.finish(rule="every transition (vote / own vote / block registration / parent certificate arriving in any order) is one case")
